@@ -261,8 +261,11 @@ pub fn gen_model(seed: u64, size: u32) -> Model<'static> {
         let n = 1 + r.below(max_cells);
         for _ in 0..n {
             let row = 1 + r.below(8) as i32;
-            let col = 1 + r.below(6) as i32;
-            match r.below(10) {
+            let kind = r.below(10);
+            // formulas live in columns D..F and refer to A..C, so that (almost) no workbook is circular:
+            // the values of cells on a reference cycle depend on the evaluation history, not on the file
+            let col = if kind >= 5 { 4 + r.below(3) as i32 } else { 1 + r.below(6) as i32 };
+            match kind {
                 0 | 1 => {
                     let v = *r.pick(&["1", "2.5", "-3", "1e10", "0.1", "123456789.123", "50%", "2020-02-29", "TRUE"]);
                     let _ = m.set_user_input(sheet, row, col, v.to_string());
